@@ -234,6 +234,9 @@ def field_contains(r, fields, strings, nocase=True, word_boundary=False):
         if nocase:
             fvalue = lower(fvalue)
         for s in strings_to_check:
+            # a wanted string that is itself a field the record lacks matches nothing
+            if isinstance(s, NoneObject):
+                continue
             if word_boundary is False:
                 if s in fvalue:
                     return True
